@@ -2,6 +2,7 @@ package leader
 
 import (
 	"context"
+	"sync"
 	"time"
 
 	"github.com/nats-io/nats.go"
@@ -464,22 +465,27 @@ func (a *natsKeyValueAdapter) Watch(key string, opts ...interface{}) (Watcher, e
 }
 
 type natsWatcherAdapter struct {
-	watcher nats.KeyWatcher
+	watcher   nats.KeyWatcher
+	once      sync.Once
+	entryChan chan Entry
 }
 
 func (a *natsWatcherAdapter) Updates() <-chan Entry {
-	entryChan := make(chan Entry, 1)
-	go func() {
-		defer close(entryChan)
-		for natsEntry := range a.watcher.Updates() {
-			if natsEntry != nil {
-				entryChan <- &natsEntryAdapter{entry: natsEntry}
-			} else {
-				entryChan <- nil
+	a.once.Do(func() {
+		entryChan := make(chan Entry, 1)
+		a.entryChan = entryChan
+		go func() {
+			defer close(entryChan)
+			for natsEntry := range a.watcher.Updates() {
+				if natsEntry != nil {
+					entryChan <- &natsEntryAdapter{entry: natsEntry}
+				} else {
+					entryChan <- nil
+				}
 			}
-		}
-	}()
-	return entryChan
+		}()
+	})
+	return a.entryChan
 }
 
 func (a *natsWatcherAdapter) Stop() {
